@@ -585,9 +585,11 @@ def p_c17(prop, tier):
         jobs = [Job("eng_float", "default", "rel", shards=16, budget=B(14)),
                 Job("eng_float", "compact", "rel", shards=4, budget=B(8), args=["--stride32", "16"]),
                 Job("eng_float", "default", "chk", shards=4, budget=B(8), args=["--stride32", "16"]),
-                Job("eng_float", "nostd+compact", "rel", shards=2, budget=B(8), args=["--stride32", "64"])]
+                Job("eng_float", "nostd+compact", "rel", shards=2, budget=B(8), args=["--stride32", "64"]),
+                Job("eng_float", "default", "relnative", shards=8, budget=B(8), args=["--stride32", "4"])]
     else:
         jobs = [Job("eng_float", "default", "rel", shards=16, budget=B(180)),
+                Job("eng_float", "default", "relnative", shards=16, budget=B(120)),
                 Job("eng_float", "compact", "rel", shards=8, budget=B(60)),
                 Job("eng_float", "default", "chk", shards=8, budget=B(60)),
                 Job("eng_float", "alloc", "rel", shards=4, budget=B(30), args=["--stride32", "4"]),
@@ -612,7 +614,7 @@ def p_c17(prop, tier):
 
 def p_c18(prop, tier):
     if tier == "quick":
-        jobs = [Job("eng_float", c, pr, shards=n, budget=B(12)) for (c, pr, n) in [("default", "rel", 6), ("compact", "rel", 4), ("default", "chk", 3), ("compact", "chk", 3)]]
+        jobs = [Job("eng_float", c, pr, shards=n, budget=B(12)) for (c, pr, n) in [("default", "rel", 6), ("compact", "rel", 4), ("default", "chk", 3), ("compact", "chk", 3), ("default", "relnative", 2)]]
     else:
         jobs = [Job("eng_float", c, pr, shards=n, budget=B(120)) for (c, pr, n) in [("default", "rel", 8), ("compact", "rel", 8), ("default", "chk", 4), ("compact", "chk", 4), ("nostd+compact", "rel", 4), ("alloc", "rel", 2)]]
     rule = ("(significand in [2^63,2^64), biased exponent) pairs: every exponent in [-63,2100] (f64) / [-63,320] (f32) x 24 significands built from pattern classes (kept bits all-zero / all-ones / odd / random; guard region 0, 1, half-1, half, half+1, all ones, random) "
